@@ -12,7 +12,8 @@ VERIF = os.path.dirname(os.path.dirname(os.path.abspath(__file__)))
 EXTRA = {'C04-A': ['C18', 'C12'], 'C05-B': ['C11'], 'C10-A': ['C11'], 'C12-A': ['C04'],
          'C12-B': ['C04'], 'C11-B': ['C08', 'C01'], 'C08-A': ['C01'], 'C08-B': ['C01'],
          'C01-B': ['C08'], 'C09-A': ['C04'], 'C09-B': ['C04'], 'C18-B': ['C06'], 'C03-A': ['C10'],
-         'C13-A': ['C14']}
+         'C13-A': ['C14'], 'C12-C': ['C06', 'C18'], 'C04-D': ['C18'], 'C07-C': ['C01'],
+         'C09-D': ['C04']}
 
 
 def main():
